@@ -21,7 +21,7 @@ E == Tr[l]
 
 Fresh == [pods |-> <<>>, ctrs |-> <<>>, sp |-> 0, sc |-> 0, np |-> 0, nc |-> 0, more |-> FALSE, pending |-> FALSE,
           sends |-> 0, calls |-> 0, failed |-> FALSE, okdone |-> FALSE, lastover |-> 0, updates |-> FALSE,
-          activated |-> FALSE, minobjs |-> 8, synced |-> FALSE]
+          activated |-> FALSE, minobjs |-> 8, synced |-> FALSE, grew |-> FALSE, accepted |-> FALSE, again |-> FALSE]
 
 TraceInit == l = 1 /\ bad = <<>> /\ st = Fresh
              /\ stats = [scenarios |-> 0, sends |-> 0, oversize |-> 0, delivered |-> 0, failures |-> 0, rejected |-> 0]
@@ -43,7 +43,10 @@ TSend ==
   ELSE IF E.np > RemP \/ E.nc > RemC THEN Reject("C09-out-of-bounds", <<E.np, E.nc, RemP, RemC>>)
   ELSE IF E.more # (E.np < RemP \/ E.nc < RemC) THEN Reject("C09-more-flag", <<E.np, E.nc, E.more>>)
   ELSE IF st.sends > 4 * (Len(st.pods) + Len(st.ctrs)) + 8 THEN Reject("C09-livelock", <<st.sends>>)
-  ELSE Go("sends", [st EXCEPT !.np = E.np, !.nc = E.nc, !.more = E.more, !.pending = TRUE, !.sends = @ + 1])
+  ELSE Go("sends", [st EXCEPT !.np = E.np, !.nc = E.nc, !.more = E.more, !.pending = TRUE, !.sends = @ + 1,
+                              \* the count discipline of SyncChunkInd: once a message has been accepted no kind of
+                              \* object gets a larger share per message (except the 0 -> 1 that keeps things moving)
+                              !.grew = @ \/ (st.accepted /\ ((E.np > st.np /\ E.np > 1) \/ (E.nc > st.nc /\ E.nc > 1)))])
 
 TResult ==
   IF ~st.pending THEN Reject("C09-protocol", <<"result without a message">>)
@@ -51,7 +54,7 @@ TResult ==
        THEN IF st.more /\ st.np + st.nc = 0 /\ RemP + RemC > 0
             THEN Reject("C09-no-progress", <<st.sends>>)       \* an empty non-final message
             ELSE Go("delivered", [st EXCEPT !.sp = @ + st.np, !.sc = @ + st.nc, !.pending = FALSE,
-                                            !.okdone = ~st.more])
+                                            !.okdone = ~st.more, !.accepted = TRUE])
        ELSE IF E.oversize
             THEN Go("oversize", [st EXCEPT !.pending = FALSE, !.lastover = st.np + st.nc])
             ELSE Go("failures", [st EXCEPT !.pending = FALSE, !.lastover = 0])
@@ -77,11 +80,22 @@ TSynced ==
        ELSE Go("sends", [st EXCEPT !.synced = TRUE])
   ELSE IF st.calls # 0 THEN Reject("C09-failure-after-delivery", <<E.err>>)
        ELSE IF ~(st.lastover > 0 /\ st.lastover <= st.minobjs) THEN Reject("C09-unjustified-failure", <<E.err, st.lastover>>)
+       ELSE IF st.grew THEN Reject("C09-unjustified-failure", <<E.err, "a chunk grew after an accepted message", st.np, st.nc>>)
        ELSE Go("failures", [st EXCEPT !.failed = TRUE])
 
 TActivated ==
   IF st.failed \/ ~st.synced THEN Reject("C09-activated-after-failure", <<>>)
   ELSE Go("sends", [st EXCEPT !.activated = TRUE])
+
+\* a second session of the same stub with another state: exactly that state, nothing left over from the first
+TAgainHandler ==
+  IF E.pods # <<"again-pod0", "again-pod1">> \/ E.ctrs # <<"again-ctr0", "again-ctr1", "again-ctr2">>
+  THEN Reject("C09-delivery-second-session", <<Len(E.pods), Len(E.ctrs)>>)
+  ELSE Go("delivered", [st EXCEPT !.again = TRUE])
+TAgainEnd ==
+  IF E.hung \/ E.text # "" THEN Reject("C09-second-session-failed", <<E.text>>)
+  ELSE IF ~st.again THEN Reject("C09-delivery-second-session", <<"handler not called">>)
+  ELSE Skip
 
 TEnd ==
   IF E.crashed THEN Reject("C09-crash", <<E.text>>)
@@ -98,6 +112,8 @@ TraceNext ==
        [] E.ev = "updates"   -> TUpdates
        [] E.ev = "synced"    -> TSynced
        [] E.ev = "activated" -> TActivated
+       [] E.ev = "again.handler" -> TAgainHandler
+       [] E.ev = "again.end" -> TAgainEnd
        [] E.ev = "End"       -> TEnd
        [] OTHER              -> Skip
 
